@@ -665,7 +665,10 @@ def singlelist_rules(v):
             if v['missing_error'] and any_blank(items):
                 out.append('empty-entry-with-missing_error')
     if len(lengths) > 1:
-        raise Undecided('answer lists of unequal length')
+        if v['length_error']:
+            out.append('alternative-lists-unequal-length')     # single_list_grader.md, length_error
+        else:
+            raise Undecided('answer lists of unequal length without length_error')
     return out
 
 
@@ -1311,6 +1314,27 @@ def scenarios():
         V(SL, {'subgrader': MID_SEMI_INNER_COMMA, 'delimiter': "'|'"}, 'nested-distinct-3-levels'),
         V(SL, {'subgrader': MID_SEMI_INNER_COMMA, 'delimiter': "'|'", 'answers': "'a,b;c,d|e,f;g,h'"},
           'nested-distinct-3-levels'),
+        # single_list_grader.md, length_error: "all answers in a tuple of lists ... must have the same length" - in every
+        # documented way of writing alternative lists (tuple of lists, tuple-valued expect, tuple of dictionaries,
+        # delimiter strings, the lists of an inner grader)
+        X(SL, {'subgrader': 'StringGrader()', 'length_error': 'True', 'answers': "(['a', 'b'], ['a', 'b', 'c'])"},
+          'alternative-lists-unequal-length'),
+        X(SL, {'subgrader': 'StringGrader()', 'length_error': 'True', 'answers': "{'expect': (['a', 'b'], ['a', 'b', 'c'])}"},
+          'alternative-lists-unequal-length'),
+        X(SL, {'subgrader': 'StringGrader()', 'length_error': 'True',
+               'answers': "{'expect': (['a', 'b'], ['c', 'd'], ['e']), 'grade_decimal': 0.5}"}, 'alternative-lists-unequal-length'),
+        X(SL, {'subgrader': 'StringGrader()', 'length_error': 'True',
+               'answers': "({'expect': ['a', 'b']}, {'expect': (['c', 'd'], ['c', 'd', 'e'])})"}, 'alternative-lists-unequal-length'),
+        X(SL, {'subgrader': 'StringGrader()', 'length_error': 'True', 'answers': "{'expect': ('a, b', 'a, b, c')}"},
+          'alternative-lists-unequal-length'),
+        X(SL, {'subgrader': 'StringGrader()', 'length_error': 'True', 'answers': "('a, b', {'expect': ('c, d', 'c')})"},
+          'alternative-lists-unequal-length'),
+        X(SL, {'subgrader': "SingleListGrader(subgrader=StringGrader(), delimiter=',', length_error=True)", 'delimiter': "';'",
+               'answers': "[['a', 'b'], {'expect': (['c', 'd'], ['c', 'd', 'e'])}]"}, 'alternative-lists-unequal-length'),
+        V(SL, {'subgrader': 'StringGrader()', 'length_error': 'True', 'answers': "{'expect': (['a', 'b'], ['c', 'd'])}"},
+          'alternative-lists-equal-length'),
+        V(SL, {'subgrader': 'StringGrader()', 'length_error': 'True',
+               'answers': "({'expect': ('a, b', ['c', 'd'])}, ['e', 'f'])"}, 'alternative-lists-equal-length'),
         X(SL, {'subgrader': 'StringGrader()', 'answers': "['a', '']"}, 'empty-entry'),
         X(SL, {'subgrader': 'StringGrader()', 'answers': "['a', '  ']"}, 'empty-entry'),
         X(SL, {'subgrader': 'StringGrader()', 'answers': "'a,,b'"}, 'empty-entry'),
